@@ -137,6 +137,26 @@ class CaptureQueue(object):
         return [(envelope, 'id%d' % len(self.got))]
 
 
+class VerdictQueue(CaptureQueue):
+    """a queue that refuses every message with a QueueError carrying the given reply (None: without a reply)"""
+
+    def __init__(self, code, text):
+        CaptureQueue.__init__(self)
+        self.code, self.text = code, text
+
+    def enqueue(self, envelope):
+        from slimta.queue import QueueError
+        self.got.append((envelope.sender, list(envelope.recipients), envelope.flatten()))
+        e = QueueError('refused by the queue')
+        if self.code:
+            e.reply = Reply(self.code, self.text)
+        return [(envelope, e)]
+
+
+VERDICTS = [('451', '4.3.0 try again later'), ('550', '5.7.1 refused by policy'), ('535', '5.7.8 authentication credentials invalid'),
+            ('552', '5.3.4 message too big for the system'), ('450', '4.2.0 mailbox busy'), ('554', '5.6.0 content rejected'), (None, None)]
+
+
 class _RealWorld(object):
     """Stand-in for World when a scenario is replayed on the real gevent loop with real sockets."""
     def __enter__(self):
@@ -159,10 +179,10 @@ class _RealNet(object):
         return gevent.socket.socketpair()
 
 
-def run_smtp_hop(cfg, envs, real=False):
+def run_smtp_hop(cfg, envs, real=False, queue=None):
     """-> list of (outcome, captured or None) per envelope, plus (client_exts, server_exts)"""
     info = {'client_exts': None, 'server_exts': None, 'errors': []}
-    cq = CaptureQueue()
+    cq = queue or CaptureQueue()
     outcomes = []
     with (_RealWorld() if real else World(Chooser(), max_steps=5000)) as w:
         net = _RealNet() if real else Net(w)
@@ -210,7 +230,7 @@ def run_smtp_hop(cfg, envs, real=False):
                 from email.encoders import encode_base64
                 kw['binary_encoder'] = encode_base64
             relay = StaticSmtpRelay('edge.test', 25, socket_creator=creator, ehlo_as='relay.test', client_class=RC,
-                                    context=VContext(), idle_timeout=5.0 if cfg.get('reuse') else None, **kw)
+                                    context=VContext(), idle_timeout=5.0 if cfg.get('reuse') else None, **dict(kw, **cfg.get('relay_kw', {})))
 
             def go():
                 for env in envs:
@@ -402,11 +422,11 @@ def wsgi_adaptor(edge, raw_request):
     return response(int(code), reason, st['headers'], body)
 
 
-def run_http_hop(env, reuse=False):
+def run_http_hop(env, reuse=False, queue=None):
     import slimta.http as shttp
     from slimta.relay.http import HttpRelay
     res = {}
-    cq = CaptureQueue()
+    cq = queue or CaptureQueue()
     # an idle HttpRelayClient polls for ever (timer after timer): stop firing timers after 60 virtual seconds
     with World(Chooser(), max_steps=5000, horizon=60.0) as w:
         net = Net(w)
@@ -502,11 +522,16 @@ def configs(tier, seed):
         cfgs.append({'t': 'lmtp', 'sweep': sweep, 'reuse': True})
         cfgs.append({'t': 'http', 'sweep': sweep})
         cfgs.append({'t': 'http', 'sweep': sweep, 'reuse': True})
+    cfgs.append({'t': 'verdict'})
     return cfgs
 
 
 def run_config(cfg, tier, seed):
     res = Result()
+    if cfg['t'] == 'verdict':
+        check_verdicts(res)
+        res.sample({'edge_queue_verdicts': [c for c, t in VERDICTS], 'transports': ['smtp', 'http']})
+        return res.as_dict()
     items = list(envelopes(cfg['sweep']))
     if cfg['t'] == 'smtp':
         sc = smtp_configs(tier)[cfg['cfg']]
@@ -562,6 +587,69 @@ def run_config(cfg, tier, seed):
     return res.as_dict()
 
 
+def reported_replies(outcome):
+    """(code, message) of every reply the relay reports for this attempt"""
+    kind, val = outcome if outcome else (None, None)
+    out = []
+    vals = [val] if not isinstance(val, dict) else list(val.values())
+    for v in vals:
+        r = getattr(v, 'reply', v)
+        if isinstance(r, Reply):
+            out.append((r.code, r.message))
+    return out
+
+
+class SlowQueue(CaptureQueue):
+    """takes its time to store the message (longer than the relay's command timeout, shorter than its data timeout)"""
+
+    def enqueue(self, envelope):
+        gevent.sleep(12.0)
+        return CaptureQueue.enqueue(self, envelope)
+
+
+def check_verdicts(res):
+    """the edge's queue refuses the message with a given reply: that reply (code and text) is what the relay must report"""
+    env0 = make_env('s@x.test', ['a@x.test', 'b@x.test'], HEADERS[0], b'refused\r\n')
+    # an edge that answers the end of data late but inside the data timeout: its 250 is the result
+    for drop in ([], ['PIPELINING']):
+        q = SlowQueue()
+        outcomes, info = run_smtp_hop({'name': 'slow-queue', 'drop': drop, 'relay_kw': {'command_timeout': 10.0, 'data_timeout': 30.0}}, [env0.copy()], queue=q)
+        o = outcomes[0][0]
+        per, whole = classify(o, env0)
+        res.evaluations += 1
+        res.count('edge_verdict_hops')
+        res.outcome(('smtp', 'slow', whole))
+        if not (q.got and all(v == 'delivered' for v in per.values())):
+            res.violation({'transport': 'smtp', 'kind': 'reported-reply-differs', 'verdict': 'slow-250'},
+                          'SMTP hop%s, the edge takes 12 s to queue the message and answers 250 (relay: command timeout 10 s, data timeout 30 s): '
+                          'the relay reports %s %r, the edge captured %d message(s)' % (' without PIPELINING' if drop else '', whole, reported_replies(o), len(q.got)),
+                          {'t': 'verdict', 'transport': 'smtp', 'code': 'slow'})
+    for transport in ('smtp', 'http'):
+        for code, text in VERDICTS:
+            q = VerdictQueue(code, text)
+            if transport == 'smtp':
+                outcomes, info = run_smtp_hop({'name': 'all', 'drop': []}, [env0.copy()], queue=q)
+                o = outcomes[0][0]
+            else:
+                o, cap, errors = run_http_hop(env0.copy(), queue=q)
+            res.evaluations += 1
+            res.count('edge_verdict_hops')
+            per, whole = classify(o, env0)
+            got = reported_replies(o)
+            res.outcome((transport, code, whole, tuple(got)))
+            res.interesting((transport, 'verdict', code))
+            desc = '%s hop, the edge\'s queue refuses with %s %s: the relay reports %s %r' % (transport.upper(), code, text, whole, got)
+            rep = {'t': 'verdict', 'transport': transport, 'code': code}
+            if whole == 'blocked' or whole.startswith('raised:other') or any(v == 'delivered' for v in per.values()):
+                res.violation({'transport': transport, 'kind': 'refusal-not-reported', 'verdict': str(code)}, desc, rep)
+                continue
+            if code is None:
+                continue                # the edge chooses the reply itself; only "not delivered" is required
+            want_class = 'perm' if code[0] == '5' else 'temp'
+            if not all(v == want_class for v in per.values()) or not got or not all(g[0] == code and text.split(' ', 1)[1] in (g[1] or '') for g in got):
+                res.violation({'transport': transport, 'kind': 'reported-reply-differs', 'verdict': str(code)}, desc, rep)
+
+
 def vacuity(counters, tier):
     p = []
     for k, n in (('smtp_hops', 2000), ('lmtp_hops', 200), ('http_hops', 200)):
@@ -571,6 +659,13 @@ def vacuity(counters, tier):
 
 
 def replay(rep):
+    if rep.get('t') == 'verdict':
+        res = Result()
+        check_verdicts(res)
+        mine = [v for v in res.violations if v['replay'].get('transport') == rep['transport'] and v['replay'].get('code') == rep['code']]
+        if mine:
+            return True, mine[0]['message']
+        return False, 'the relay reports the reply the edge gave'
     s, rl, h, b = rep['env']
     env = make_env(s, rl, h.encode('latin-1'), b.encode('latin-1'))
     if rep['t'] == 'smtp':
